@@ -42,6 +42,10 @@ CLAIMED = {
     'C11': (IND + 'GCounter/PNCounter read the arithmetic sum of the largest learned totals (u128 model of BigUint), Max/MinReg the extremum, LWWReg '
             'the greatest marker (conflict flag exact), GSet the union; K = arbitrary subsets with duplicates; inc/dec/inc_many/dec_many are '
             'realised at the author.', '§6 C11'),
+    'C14': ('Identifier::cmp is compared with a reference lexicographic order with the prefix rule on all triples of identifiers of depth <= 2 over '
+            'dyadic rationals in {-2,-1.5,..,2} and markers 0..3 (equal-rational siblings and prefix pairs are cover points): total, antisymmetric, '
+            'transitive, consistent with ==; between(lo,hi,m) is strictly inside for every marker and either argument order, one-sided strictly '
+            'beyond. Deeper paths and non-dyadic rationals are outside the claim.', '§6 C14'),
     'C16': ('validate_op is evaluated on every SPEC(U,K) state against every universe op: Ok for the next op of an actor and for re-deliveries, the '
             'ordering error exactly for a gap (VClock, Orswot), conflict exactly for a reused marker (LWWReg), always Ok for MVReg/counters; for Map the '
             'false rejection of an in-order update (D3) is a listed known finding, any other deviation is a violation. List and MerkleReg are outside.', '§6 C16'),
@@ -57,10 +61,12 @@ CLAIMED = {
 }
 
 NOT_APPLICABLE = {
-    'C12': 'List sequence properties need the identifier/Vec/BigRational path through the encoder; harnesses not built yet in this revision',
-    'C13': 'index semantics of List/GList: harnesses not built yet in this revision',
-    'C14': 'identifier order/density: harnesses not built yet in this revision',
-    'C15': 'MerkleReg: harnesses not built yet in this revision',
+    'C12': 'List histories were encoded (harness/vh/t_list.rs) but symbolic execution over sorted-array maps keyed by symbolic identifiers plus the '
+           'solver queries exceed the time budget (> 10 min, DESIGN.md §9); not claimed rather than claimed on a timeout',
+    'C13': 'same limit as C12 for List; the GList harness also exceeds 15 min of solver time; only Identifier::between (C14) is decided, which is '
+           'too thin to claim index semantics',
+    'C15': 'MerkleReg harnesses exist (harness/vh/c15_merkle.rs) but maps keyed by 32-byte hashes blow the encoder up (> 11 M expression nodes '
+           'before the first query, DESIGN.md §9); not claimed',
     'C19': 'serde_json round-trip: byte-stream serialisation code with data-dependent buffers is outside what the IR-level symbolic executor '
            'can encode within reach; see DESIGN.md §7',
 }
